@@ -110,3 +110,82 @@ Proof.
   split; [vm_compute; discriminate|].
   eexists. split; [vm_compute; reflexivity|]. split; reflexivity.
 Qed.
+
+(* ---- recursive round trip: a toy codec that accepts every name, and a three-level tree ---- *)
+From Helm Require Import Chart.RecProofs.
+
+Definition metaT (n : string) : meta := mkMeta "v2" n "0.1.0" "" "" "{}".
+Definition encT (m : meta) : string := "n:" ++ m_name m.
+Definition mergeT (_ : meta) (d : string) : option meta := Some (metaT (substring 2 (String.length d - 2) d)).
+Definition restT (m : meta) : bool := meta_eqb m (metaT (m_name m)).
+
+Lemma substring_tail2 s : substring 2 (String.length ("n:" ++ s) - 2) ("n:" ++ s) = s.
+Proof. simpl. rewrite Nat.sub_0_r. induction s; simpl; congruence. Qed.
+
+Lemma codecT_ok :
+  (forall m, validate sanK semverK restT m = Some m -> mergeT empty_meta (encT m) = Some m) /\
+  (forall m, has_bom (encT m) = false) /\
+  (forall l, lock_decK (lock_encK l) = Some (Some l)) /\
+  (forall l, has_bom (lock_encK l) = false).
+Proof.
+  repeat split; try reflexivity.
+  intros m H. unfold validate, sanK in H.
+  repeat match type of H with context [if ?b then _ else _] => destruct b eqn:? end; try discriminate.
+  unfold mergeT, encT. rewrite substring_tail2. f_equal. symmetry. apply meta_eqb_eq.
+  match goal with E : negb (restT m) = false |- _ => now apply negb_false_iff in E end.
+Qed.
+
+Definition leafT (n : string) (fs : list file) : chart := Chart (metaT n) None [] None None [] fs [].
+Definition treeT : chart :=
+  Chart (metaT "top") (Some "digest") [mkFile "values.yaml" "a: 1"] (Some (VStr "a: 1")) None
+        [mkFile "templates/d.yaml" "kind: X"] [mkFile "README.md" "hi"]
+        [Chart (metaT "alpha") None [] None None [mkFile "templates/a.yaml" "a"] []
+               [leafT "inner" [mkFile "docs/i.prov" "p"; mkFile "f" "f"]];
+         leafT "zeta" [mkFile "docs/z.prov" "z"]].
+
+Lemma treeT_ok :
+  wf_tree parseK jsonK sanK semverK restT treeT /\ nobom_tree treeT /\ depth treeT = 3%nat.
+Proof.
+  assert (forall n fs, wf_cname n = true -> forallb wf_file fs = true -> wf_chart parseK jsonK sanK semverK restT (own (leafT n fs))) as Hleaf.
+  { intros n fs Hn Hf. constructor; simpl; auto. unfold validate, sanK, restT, semverK. simpl.
+    destruct (wf_cname_props n Hn) as ((Hne & _) & Hs & _).
+    apply String.eqb_neq in Hne. rewrite Hne. unfold name_is_base.
+    assert (path_base n = n) as ->.
+    { unfold path_base. destruct n as [|a n']; [now rewrite String.eqb_refl in Hne|].
+      assert (strip_trailing slash (String a n') = String a n') as ->.
+      { clear -Hs. revert a Hs. induction n' as [|b t IH]; intros a Hs; simpl in *.
+        - destruct (Ascii.eqb a slash); [discriminate|reflexivity].
+        - apply orb_false_iff in Hs as [Ha Hs]. specialize (IH b Hs). simpl in IH. rewrite IH. reflexivity. }
+      rewrite (PathsProofs.split_on_nosep slash _ Hs). reflexivity. }
+    rewrite String.eqb_refl. simpl. unfold meta_eqb. simpl. now rewrite !String.eqb_refl. }
+  assert (forall n fs, wf_cname n = true -> forallb wf_file fs = true ->
+                       wf_tree parseK jsonK sanK semverK restT (leafT n fs)) as Hleaft.
+  { intros n fs Hn Hf. constructor; [now apply Hleaf|exact I|constructor|constructor]. }
+  pose proof (Hleaft "inner" [mkFile "docs/i.prov" "p"; mkFile "f" "f"] eq_refl eq_refl) as Hinner.
+  pose proof (Hleaft "zeta" [mkFile "docs/z.prov" "z"] eq_refl eq_refl) as Hzeta.
+  assert (wf_tree parseK jsonK sanK semverK restT
+            (Chart (metaT "alpha") None [] None None [mkFile "templates/a.yaml" "a"] []
+                   [leafT "inner" [mkFile "docs/i.prov" "p"; mkFile "f" "f"]])) as Halpha.
+  { constructor.
+    - constructor; simpl; auto; reflexivity.
+    - simpl. split; [constructor|exact I].
+    - constructor; [split; reflexivity|constructor].
+    - constructor; [exact Hinner|constructor]. }
+  split; [|split; [|reflexivity]].
+  - constructor.
+    + constructor; simpl; auto; reflexivity.
+    + simpl. split; [constructor; [split; [reflexivity|discriminate]|constructor]|split; [constructor|exact I]].
+    + constructor; [split; reflexivity|constructor; [split; reflexivity|constructor]].
+    + constructor; [exact Halpha|constructor; [exact Hzeta|constructor]].
+  - repeat (constructor; simpl; auto).
+Qed.
+
+Lemma treeT_saved :
+  exists es, save encT lock_encK jsonK sanK semverK restT treeT = Some es /\ fits 1000 100 es /\
+    exists c', load_archive mergeT lock_decK parseK untarK sanK semverK restT 1000 100 3 (mkTS false es false) = inr c'
+               /\ chart_eqb treeT c' = true /\ List.length (c_deps c') = 2%nat.
+Proof.
+  eexists. split; [vm_compute; reflexivity|]. split.
+  - split; [repeat constructor; vm_compute; discriminate|vm_compute; reflexivity].
+  - eexists. split; [vm_compute; reflexivity|]. split; vm_compute; reflexivity.
+Qed.
